@@ -302,6 +302,54 @@ def handleCfg (req : Json) : Except String Json := do
   let r := if inter then buildConfigInterleaved mro disk else buildConfig mro disk
   pure (Json.mkObj [("ok", encJ (.obj r))])
 
+open Nbdime.GitFiles in
+def decRef : Json → Except String Ref
+  | .str "index" => pure .index
+  | .str "worktree" => pure .worktree
+  | .arr #[.str "commit", .str n] => pure (.commit n)
+  | _ => throw "bad ref"
+
+def optStrList (j : Json) : Except String (Option (List String)) :=
+  match j with
+  | .null => pure none
+  | j => do pure (some (← strList j))
+
+def optStr (j : Json) : Option String :=
+  match j with
+  | .str s => some s
+  | _ => none
+
+open Nbdime.GitFiles in
+def encStream : Stream → Json
+  | .missing => .str "missing"
+  | .blob l c => .arr #[.str "blob", .str l, .str c]
+  | .file c => .arr #[.str "file", .str c]
+
+open Nbdime.GitFiles in
+def handleGitFiles (req : Json) : Except String Json := do
+  let cwd ← strList (req.getObjValD "cwd")
+  let repoDir ← strList (req.getObjValD "repoDir")
+  let files ← match req.getObjVal? "files" with
+    | .ok (.arr xs) => xs.toList.mapM (fun f => match f with
+        | .arr #[p, .str c] => do pure (← strList p, c)
+        | _ => throw "bad file")
+    | _ => throw "gitfiles.files"
+  let entries ← match req.getObjVal? "entries" with
+    | .ok (.arr xs) => xs.toList.mapM (fun e => do
+        let a ← optStrList (e.getObjValD "a")
+        let b ← optStrList (e.getObjValD "b")
+        pure ({ aPath := a, bPath := b, aBlob := optStr (e.getObjValD "ab"), bBlob := optStr (e.getObjValD "bb") } : Entry))
+    | _ => throw "gitfiles.entries"
+  let base ← decRef (req.getObjValD "base")
+  let remote ← decRef (req.getObjValD "remote")
+  let restore := match req.getObjVal? "restore" with
+    | .ok (.bool false) => false
+    | _ => true
+  let (pairs, w) := changed restore base remote repoDir ⟨cwd, files⟩ entries
+  pure (Json.mkObj [("ok", Json.mkObj [
+    ("pairs", .arr (pairs.map (fun (a, b) => Json.arr #[encStream a, encStream b])).toArray),
+    ("cwd", .arr (w.cwd.map Json.str).toArray)])])
+
 def handle (req : Json) : Except String Json := do
   let cmd ← req.getObjValAs? String "cmd"
   match cmd with
@@ -311,6 +359,7 @@ def handle (req : Json) : Except String Json := do
       pure (reply (patch doc d) encJ)
   | "gitcfg" => handleGitCfg req
   | "cfg" => handleCfg req
+  | "gitfiles" => handleGitFiles req
   | "hist" =>
       match req.getObjVal? "calls" with
       | .ok (.arr xs) => do
